@@ -55,7 +55,7 @@ def genVisCases (tier : String) (seed : Nat) (tagp : String) : Array Case := Id.
     let (s, rng') :=
       if i % 3 = 0 then genC01 { suffixes := false, maxDepth := 2, maxComps := 5 } rng
       else if i % 3 = 1 then genSupC02 2 rng
-      else genNestedSup { depth := 1, pairs := true } rng
+      else genNestedSup { depth := 1, pairs := true, nestedPairs := true } rng
     rng := rng'
     let kind := if i % 3 = 0 then "simple" else if i % 3 = 1 then "nested" else "pairs"
     for v in [0:32] do
@@ -164,16 +164,18 @@ def judgeC17Group (outs : Array (Nat × Json)) : Option String := Id.run do
     return none
 
 def genC17Cases (tier : String) (seed : Nat) : Array Case := Id.run do
-  let n := if tier = "thorough" then 300 else 20
+  let n := if tier = "thorough" then 300 else 24
   let mut out : Array Case := #[]
   let mut rng : Rng := ⟨UInt64.ofNat (seed * 67867967 + 23)⟩
   for i in [0:n] do
     let (s, rng') :=
-      if i % 2 = 0 then genC01 { suffixes := false, maxDepth := 3, maxComps := 5 } rng
-      else genSupC02 2 rng
+      if i % 4 = 0 then genC01 { suffixes := false, maxDepth := 3, maxComps := 5 } rng
+      else if i % 4 = 1 then genSupC02 2 rng
+      else if i % 4 = 2 then genNestedSup { depth := 1, pairs := true, nestedPairs := true } rng
+      else genNestedSup { depth := 1, pairs := false, nestedPairs := true, maxSimple := 2 } rng
     rng := rng'
     for v in [0:32] do
-      out := out.push (visCase s!"c17-{i}-{v}" (if i % 2 = 0 then "simple" else "nested") s v)
+      out := out.push (visCase s!"c17-{i}-{v}" (#["simple", "nested", "pairs", "pairs-inside-nested"].getD (i % 4) "") s v)
   pure out
 
 /-- DoV: the statement total and every node label against the recurrence -/
